@@ -8,6 +8,7 @@ must be identical.
 """
 import itertools
 import os
+import struct
 import subprocess
 
 from .. import build, c10cat, fs, ilexec
@@ -92,6 +93,28 @@ def streams(chk):
                 'int' if op in ('<', '>', '<=', '>=', '==', '!=') else ty, i, ty, a, op, ty, b, i, ty, a if 'e300' not in a and '9223372036854775808' not in a else '1.0', ty, i, ty, vals[i % len(vals)])
                 for i, (a, b) in enumerate(itertools.product(fvals, fvals))]
             yield ('fold/%s' % ty, 0, [], ('\n'.join(lines) + '\n').encode())
+    # conversions between floating and integer constants at the boundaries of every target type (each is one arm of eval.c's cast folding)
+    ranges = {'unsigned char': (0, 255), 'signed char': (-128, 127), 'short': (-32768, 32767), 'unsigned short': (0, 65535), 'int': (-2**31, 2**31 - 1),
+              'unsigned': (0, 2**32 - 1), 'long': (-2**63, 2**63 - 1), 'unsigned long': (0, 2**64 - 1), '_Bool': (-1e400, 1e400)}
+    fconsts = [0.0, 0.5, 0.99, 1.0, 1.5, -0.5, -0.99, -1.0, -1.5, 127.0, 127.9, 128.0, -128.0, -128.9, 255.0, 255.9, 256.0, 32767.5, 32768.0, -32768.5, 65535.5, 65536.0,
+               2147483647.0, 2147483647.5, 2147483648.0, -2147483648.0, -2147483648.5, 4294967295.0, 4294967295.5, 4294967296.0, 2.0**53, 2.0**53 + 2, 2.0**62, 2.0**63 - 1024,
+               2.0**63, 2.0**63 + 2048, -2.0**63, 1e19, 1.8e19, 2.0**64 - 2048, 1e-30, 16777217.0]
+    for ty, (lo, hi) in ranges.items():
+        lines = []
+        for i, v in enumerate(fconsts):
+            if lo - 1 < v < hi + 1:      # the truncated value fits: defined
+                for fs_, suf in (('double', ''), ('float', 'f')):
+                    if suf and not lo - 1 < struct.unpack('f', struct.pack('f', v))[0] < hi + 1:
+                        continue
+                    lines.append('%s f2i_%s%d = (%s)%r%s; %s f2ie_%s%d = (%s)(%s)%r;' % (ty, suf or 'd', i, ty, v, suf, ty, suf or 'd', i, ty, fs_, v))
+        yield ('fold/float-to-%s' % ty, 0, [], ('\n'.join(lines) + '\n').encode())
+    iconsts = ['0', '1', '-1', '255', '16777216', '16777217', '16777219', '2147483647', '(-2147483647-1)', '2147483648u', '4294967295u', '4294967296', '9007199254740993',
+               '9223372036854775807', '(-9223372036854775807-1)', '9223372036854775808u', '9223372036854776833u', '18446744073709551615u', '18446744073709549568u']
+    lines = []
+    for i, v in enumerate(iconsts):
+        for ty in ('double', 'float'):
+            lines.append('%s i2f_%s%d = %s; %s i2fc_%s%d = (%s)%s; %s i2fa_%s%d = %s + 0.0%s;' % (ty, ty[0], i, v, ty, ty[0], i, ty, v, ty, ty[0], i, v, 'f' if ty == 'float' else ''))
+    yield ('fold/integer-to-floating', 0, [], ('\n'.join(lines) + '\n').encode())
     # C13 scanner strings in token-dump mode
     for n in range(1, (2 if q else 3) + 1):
         for t in itertools.product(c13.PUNCT, repeat=n):
